@@ -1779,30 +1779,76 @@ mod tv {
                         Ok(s)
                     }
                     "T3FILL" => {
-                        // TDDx (C05, C14): capacity probe for ternary nodes.  Base: two-valued functions g of
-                        // x1..x3 (closed under negation), gl = g AND u (values F/U), gh = g OR u (values U/T).
-                        // Each probe step creates exactly ONE node at level 0 (all results kept alive):
+                        // TDDx (C05, C14): capacity probe for ternary nodes: every step creates exactly ONE
+                        // node and leaves no garbage; all results are kept alive until the manager reports
+                        // out-of-memory (then every slot must be in use).
+                        // Phase A, per variable v: the 12 nodes with terminal children that one connective
+                        // makes of x_v and the constant u:  x (T,U,F)  not x (F,U,T)  x and u (U,U,F)
+                        // x or u (T,U,U)  x equiv u (U,T,U)  x xor u (U,F,U)  x imp u (U,T,T)  u imp x (T,T,U)
+                        // x nand u (U,U,T)  x nor u (F,U,U)  x imp_strict u (F,F,U)  u imp_strict x (U,F,F).
+                        // Phase B (`T3FILL <k>`, k >= 1; needs >= 4 variables in identity order): a base of k
+                        // two-valued functions g of x1..x3 (closed under negation; building it leaves dead
+                        // intermediate nodes behind), gl = g AND u, gh = g OR u, then single nodes at level 0:
                         //   x0 AND gl = (gl, gl, F)   NOT x0 AND gl = (F, gl, gl)   x0 OR gh = (T, gh, gh)
                         //   NOT x0 OR gh = (gh, gh, T)   x0 EQUIV g = (g, U, NOT g)
-                        // until the manager reports out-of-memory; needs >= 4 variables, identity order
-                        if core.nvars() < 4 {
-                            return Err("skip".into());
-                        }
+                        let lim = tok.get(1).and_then(|t| t.parse::<usize>().ok()).unwrap_or(14);
+                        let nv = core.nvars();
                         let res: Result<(usize, usize, usize, bool), String> = core.mref.with_manager_shared(|m| {
-                            if (0..4).any(|v| m.var_to_level(v) != v) {
-                                return Err("skip".to_string());
+                            let u = TDDFunction::u(m);
+                            let before = m.num_inner_nodes();
+                            let mut keep: Vec<TDDFunction> = Vec::new();
+                            // one probe step (transient failures while a background collection holds freed slots: retry)
+                            let step = |keep: &mut Vec<TDDFunction>, f: &dyn Fn() -> AllocResult<TDDFunction>| -> bool {
+                                let mut tries = 0;
+                                loop {
+                                    match f() {
+                                        Ok(r) => {
+                                            keep.push(r);
+                                            return true;
+                                        }
+                                        Err(_) if tries < 40 => {
+                                            tries += 1;
+                                            std::thread::sleep(Duration::from_millis(3));
+                                        }
+                                        Err(_) => return false,
+                                    }
+                                }
+                            };
+                            for v in 0..nv {
+                                if !step(&mut keep, &|| TDDFunction::var(m, v)) {
+                                    return Ok((before, keep.len(), m.num_inner_nodes(), true));
+                                }
+                                let x = keep.last().unwrap().clone();
+                                for k in 0..11 {
+                                    let ok = step(&mut keep, &|| match k {
+                                        0 => x.not(),
+                                        1 => x.and(&u),
+                                        2 => x.or(&u),
+                                        3 => x.equiv(&u),
+                                        4 => x.xor(&u),
+                                        5 => x.imp(&u),
+                                        6 => u.imp(&x),
+                                        7 => x.nand(&u),
+                                        8 => x.nor(&u),
+                                        9 => x.imp_strict(&u),
+                                        _ => u.imp_strict(&x),
+                                    });
+                                    if !ok {
+                                        return Ok((before, keep.len(), m.num_inner_nodes(), true));
+                                    }
+                                }
+                            }
+                            if lim == 0 || nv < 4 || (0..4).any(|v| m.var_to_level(v) != v) {
+                                return Ok((before, keep.len(), m.num_inner_nodes(), false));
                             }
                             let x = |v: VarNo| oom(TDDFunction::var(m, v));
                             let (x0, x1, x2, x3) = (x(0)?, x(1)?, x(2)?, x(3)?);
                             let nx0 = oom(x0.not())?;
-                            let u = TDDFunction::u(m);
                             // two-valued functions: built from two-valued operands by connectives that keep F/T
                             let ind = |v: &TDDFunction| -> Result<TDDFunction, String> {
                                 // I_T(v) = NOT (v IMP NOT v): true iff v is true, false otherwise
                                 oom(oom(v.imp(&oom(v.not())?))?.not())
                             };
-                            // `T3FILL <k>`: only the first k of the 14 base functions (a smaller base for small stores)
-                            let lim = tok.get(1).and_then(|t| t.parse::<usize>().ok()).unwrap_or(14).max(1);
                             let b1 = ind(&x1)?;
                             let mut two: Vec<TDDFunction> = vec![b1.clone()];
                             if lim > 1 {
@@ -1832,40 +1878,21 @@ mod tv {
                             two.extend(negs);
                             let lo: Vec<TDDFunction> = two.iter().map(|g| oom(g.and(&u))).collect::<Result<_, _>>()?;
                             let hi: Vec<TDDFunction> = two.iter().map(|g| oom(g.or(&u))).collect::<Result<_, _>>()?;
-                            let before = m.num_inner_nodes();
-                            let mut keep: Vec<TDDFunction> = Vec::new();
-                            let mut hit = false;
-                            'outer: for k in 0..5 {
+                            for k in 0..5 {
                                 for i in 0..two.len() {
-                                    // (transient failures while a background collection holds freed slots: retry)
-                                    let mut tries = 0;
-                                    let r = loop {
-                                        let r = match k {
-                                            0 => x0.and(&lo[i]),
-                                            1 => nx0.and(&lo[i]),
-                                            2 => x0.or(&hi[i]),
-                                            3 => nx0.or(&hi[i]),
-                                            _ => x0.equiv(&two[i]),
-                                        };
-                                        match r {
-                                            Ok(f) => break Some(f),
-                                            Err(_) if tries < 40 => {
-                                                tries += 1;
-                                                std::thread::sleep(Duration::from_millis(3));
-                                            }
-                                            Err(_) => break None,
-                                        }
-                                    };
-                                    match r {
-                                        Some(f) => keep.push(f),
-                                        None => {
-                                            hit = true;
-                                            break 'outer;
-                                        }
+                                    let ok = step(&mut keep, &|| match k {
+                                        0 => x0.and(&lo[i]),
+                                        1 => nx0.and(&lo[i]),
+                                        2 => x0.or(&hi[i]),
+                                        3 => nx0.or(&hi[i]),
+                                        _ => x0.equiv(&two[i]),
+                                    });
+                                    if !ok {
+                                        return Ok((before, keep.len(), m.num_inner_nodes(), true));
                                     }
                                 }
                             }
-                            Ok((before, keep.len(), m.num_inner_nodes(), hit))
+                            Ok((before, keep.len(), m.num_inner_nodes(), false))
                         });
                         let (before, created, at_end, hit) = res?;
                         Ok(format!("before={before} created={created} inner_at_end={at_end} oom={}", hit as u8))
